@@ -54,7 +54,7 @@ func (c10) Runs(t Tier) int {
 }
 func (c10) RecordWidths() map[string]int { return nil }
 func (c10) RequiredProbes() []string {
-	return []string{"concurrent-builders", "sequential-builds-on-one-link-system", "seekable-source-after-header", "failed-build-before", "recursive-import", "reimport-after-in-place-edit", "default-chunker", "default-chunker-at-block-boundary", "mixed-link-lengths", "aliased-entries", "non-murmur-hasher", "file-fragmentation", "rabin-chunker", "dir-permutation", "sharded-permutation", "quick-builder", "distinct-commit-orders>=2", "nested-shards", "straddles-shard-threshold", "multi-level-file"}
+	return []string{"concurrent-builders", "sequential-builds-on-one-link-system", "seekable-source-after-header", "failed-build-before", "recursive-import", "reimport-after-in-place-edit", "default-chunker", "default-chunker-at-block-boundary", "mixed-link-lengths", "aliased-entries", "non-murmur-hasher", "file-fragmentation", "rabin-chunker", "dir-permutation", "sharded-permutation", "quick-builder", "distinct-commit-orders>=2", "nested-shards", "straddles-shard-threshold", "multi-level-file", "names-with-identical-hash"}
 }
 
 type c10Scenario struct {
@@ -213,6 +213,14 @@ func (c10) Run(ts *tape.Set, tier Tier) *Result {
 				names[i] = names[i] + "-" + strings.Repeat("p", pad)
 			}
 			res.probe("straddles-shard-threshold")
+		}
+		if kind == 2 && pseed%7 == 3 {
+			// two names with the same 64-bit hash: no HAMT can hold both, and
+			// whatever the builder does with such a set it must do in every
+			// entry order
+			a, b := gen.CollidingNames(pseed)
+			names = append(names, a, b)
+			res.probe("names-with-identical-hash")
 		}
 		ents := map[string]cid.Cid{}
 		sizes := map[string]int64{}
